@@ -1,1 +1,225 @@
-import GeoModel
+/-
+  GeoProofs.Props.C19 — the segment kernel (Raycast, IntersectsSegment, ContainsSegment,
+  CollinearPoint, Rect) meets its exact planar specification, for ALL rational inputs
+  (zero-length, horizontal and vertical segments included).
+
+  The stage-by-stage lemmas live in `GeoProofs/KernelLemmas.lean` (namespace `Geo.K`); the
+  predicates `OnSeg`, `Cross`, `SegsMeet` below have literally the same bodies as
+  `K.OnSeg`, `K.Cross`, `K.SegsMeet`, so the lemmas transfer by definitional unfolding.
+-/
+import GeoProofs.KernelLemmas
+import GeoProofs.Kernel.Intersect
+
+namespace Geo
+
+def OnSeg (a b p : Pt) : Prop :=
+  Spec.cross a b p = 0 ∧ min a.x b.x ≤ p.x ∧ p.x ≤ max a.x b.x ∧ min a.y b.y ≤ p.y ∧ p.y ≤ max a.y b.y
+
+/-- half-open crossing rule: the rightward horizontal ray from p crosses ab; an endpoint level with p counts as below it -/
+def Cross (a b p : Pt) : Prop :=
+  ((a.y ≤ p.y) ≠ (b.y ≤ p.y)) ∧ (if a.y < b.y then 0 < Spec.cross a b p else 0 < Spec.cross b a p)
+
+def SegsMeet (a b c d : Pt) : Prop := ∃ p : Pt, OnSeg a b p ∧ OnSeg c d p
+
+theorem onSeg_iff_K (a b p : Pt) : OnSeg a b p ↔ K.OnSeg a b p := Iff.rfl
+theorem cross_iff_K (a b p : Pt) : Cross a b p ↔ K.Cross a b p := Iff.rfl
+theorem segsMeet_iff_K (a b c d : Pt) : SegsMeet a b c d ↔ K.SegsMeet a b c d := Iff.rfl
+
+theorem onSeg_iff_param (a b p : Pt) :
+    OnSeg a b p ↔ ∃ t : Rat, 0 ≤ t ∧ t ≤ 1 ∧ p.x = a.x + t * (b.x - a.x) ∧ p.y = a.y + t * (b.y - a.y) :=
+  K.onSeg_iff_param a b p
+
+theorem raycast_on_iff (a b p : Pt) : (raycast a b p).on = true ↔ OnSeg a b p :=
+  (K.raycast_good a b p).1
+
+theorem raycast_in_iff (a b p : Pt) (h : ¬ OnSeg a b p) : (raycast a b p).inn = true ↔ Cross a b p :=
+  (K.raycast_good a b p).2.trans ⟨fun hc => hc.2, fun hc => ⟨h, hc⟩⟩
+
+theorem raycast_on_not_in (a b p : Pt) : (raycast a b p).on = true → (raycast a b p).inn = false := by
+  intro hon
+  have hs := (raycast_on_iff a b p).1 hon
+  cases hin : (raycast a b p).inn with
+  | false => rfl
+  | true => exact absurd hs ((K.raycast_good a b p).2.1 hin).1
+
+theorem raycast_symm (a b p : Pt) :
+    (raycast a b p).inn = (raycast b a p).inn ∧ (raycast a b p).on = (raycast b a p).on := by
+  have h1 := K.raycast_good a b p
+  have h2 := K.raycast_good b a p
+  constructor
+  · rw [Bool.eq_iff_iff, h1.2, h2.2, K.onSeg_symm a b p, K.cross_symm a b p]
+  · rw [Bool.eq_iff_iff, h1.1, h2.1, K.onSeg_symm a b p]
+
+/-! ### IntersectsSegment -/
+
+theorem segIntersects_iff (s t : Seg) : s.intersects t = true ↔ SegsMeet s.a s.b t.a t.b := by
+  unfold Seg.intersects segIntersectsS
+  simp only []
+  split_ifs with h1 h2 h3 h4 h5 h6 h7
+  · -- site 1: y-ranges disjoint
+    refine iff_of_false (by simp) ?_
+    rintro ⟨p, ⟨-, -, -, e1, e2⟩, ⟨-, -, -, e3, e4⟩⟩
+    exact K.axisReject_sound h1 e1 e2 e3 e4
+  · -- site 2: x-ranges disjoint
+    refine iff_of_false (by simp) ?_
+    rintro ⟨p, ⟨-, e1, e2, -, -⟩, ⟨-, e3, e4, -, -⟩⟩
+    exact K.axisReject_sound h2 e1 e2 e3 e4
+  · -- site 3: a shared endpoint
+    refine iff_of_true rfl ?_
+    simp only [Bool.or_eq_true, decide_eq_true_eq] at h3
+    rcases h3 with ((h | h) | h) | h
+    · exact ⟨s.a, K.onSeg_left _ _, h ▸ K.onSeg_left _ _⟩
+    · exact ⟨s.a, K.onSeg_left _ _, h ▸ K.onSeg_right _ _⟩
+    · exact ⟨s.b, K.onSeg_right _ _, h ▸ K.onSeg_left _ _⟩
+    · exact ⟨s.b, K.onSeg_right _ _, h ▸ K.onSeg_right _ _⟩
+  · -- site 4: collinear, decided by the three on-tests
+    exact K.collinear_leaf h4
+  · -- site 5: collinear, `t.a` inside the half-open coordinate range of `s`
+    refine iff_of_true rfl ?_
+    rw [Bool.not_eq_true, Bool.not_eq_false'] at h5
+    exact K.segsMeet_of_onSeg_left (K.onSeg_of_halfopen h4 h5)
+  · -- site 6: parallel, not collinear
+    exact iff_of_false (by simp) (K.parallel_leaf h4 h6)
+  · -- site 7: Cramer parameters outside [0,1]
+    refine iff_of_false (by simp) ?_
+    rw [Bool.not_eq_true'] at h7
+    intro hm
+    rw [(K.cramer_leaf h6).2 hm] at h7
+    exact absurd h7 (by simp)
+  · -- site 8: Cramer parameters inside [0,1]
+    exact iff_of_true rfl ((K.cramer_leaf h6).1 (by simpa using h7))
+
+theorem segIntersects_symm (s t : Seg) : s.intersects t = t.intersects s := by
+  rw [Bool.eq_iff_iff, segIntersects_iff, segIntersects_iff]
+  exact K.segsMeet_symm _ _ _ _
+
+/-! ### ContainsSegment, CollinearPoint, Rect -/
+
+theorem segContainsSeg_iff (s t : Seg) :
+    s.containsSeg t = true ↔ (OnSeg s.a s.b t.a ∧ OnSeg s.a s.b t.b) := by
+  unfold Seg.containsSeg Seg.raycast
+  rw [Bool.and_eq_true, raycast_on_iff, raycast_on_iff]
+
+theorem segContainsSeg_iff_subset (s t : Seg) :
+    s.containsSeg t = true ↔ ∀ p, OnSeg t.a t.b p → OnSeg s.a s.b p := by
+  rw [segContainsSeg_iff]
+  constructor
+  · rintro ⟨ha, hb⟩ p hp
+    exact K.onSeg_convex ha hb hp
+  · intro h
+    exact ⟨h _ (K.onSeg_left _ _), h _ (K.onSeg_right _ _)⟩
+
+theorem collinearPt_iff (s : Seg) (p : Pt) : s.collinearPt p = true ↔ Spec.cross s.a s.b p = 0 := by
+  unfold Seg.collinearPt
+  simp only [decide_eq_true_eq]
+  rw [K.cross_def]
+  constructor <;> intro h <;> linear_combination -h
+
+theorem segBox_tight (s : Seg) :
+    s.box = ⟨⟨min s.a.x s.b.x, min s.a.y s.b.y⟩, ⟨max s.a.x s.b.x, max s.a.y s.b.y⟩⟩ := by
+  unfold Seg.box
+  simp only [K.ite_gt_min, K.ite_gt_max]
+
+/-! ### the executable specification functions agree with the Prop-level specification -/
+
+theorem spec_onSeg_iff (a b p : Pt) : Spec.onSeg a b p = true ↔ OnSeg a b p := by
+  unfold Spec.onSeg OnSeg
+  simp only [Bool.and_eq_true, decide_eq_true_eq, and_assoc]
+
+theorem spec_crosses_iff (a b p : Pt) : Spec.crosses a b p = true ↔ Cross a b p := by
+  unfold Spec.crosses Cross
+  have e : ((a.y ≤ p.y) ≠ (b.y ≤ p.y)) ↔ ¬ ((a.y ≤ p.y) ↔ (b.y ≤ p.y)) := by rw [Ne, eq_iff_iff]
+  rw [Bool.and_eq_true, bne_iff_ne, Ne, decide_eq_decide, e]
+  split_ifs <;> simp only [decide_eq_true_eq]
+
+theorem spec_segsMeet_iff (a b c d : Pt) : Spec.segsMeet a b c d = true ↔ SegsMeet a b c d := by
+  unfold Spec.segsMeet
+  simp only [Bool.or_eq_true, Bool.and_eq_true, decide_eq_true_eq, spec_onSeg_iff]
+  constructor
+  · rintro ((((⟨h1, h2⟩ | h) | h) | h) | h)
+    · exact K.proper_cross_meet h1 h2
+    · exact K.segsMeet_of_onSeg_left h
+    · exact K.segsMeet_of_onSeg_right h
+    · exact (K.segsMeet_symm _ _ _ _).1 (K.segsMeet_of_onSeg_left h)
+    · exact (K.segsMeet_symm _ _ _ _).1 (K.segsMeet_of_onSeg_right h)
+  · intro h
+    rcases K.meet_cases ((K.segsMeet_iff_meetP _ _ _ _).1 h) with h | h | h | h | h
+    · exact Or.inl (Or.inl (Or.inl (Or.inl h)))
+    · exact Or.inl (Or.inl (Or.inl (Or.inr h)))
+    · exact Or.inl (Or.inl (Or.inr h))
+    · exact Or.inl (Or.inr h)
+    · exact Or.inr h
+
+/-! ### non-vacuity: the hypotheses and predicates are inhabited by non-trivial values -/
+
+/-- a point off the segment whose ray crosses it (hypothesis of `raycast_in_iff` + `Cross`) -/
+theorem ex_off_cross : ¬ OnSeg ⟨0, 0⟩ ⟨2, 4⟩ ⟨0, 1⟩ ∧ Cross ⟨0, 0⟩ ⟨2, 4⟩ ⟨0, 1⟩ := by
+  unfold OnSeg Cross Spec.cross
+  constructor
+  · norm_num
+  · refine ⟨?_, by norm_num⟩
+    rw [K.prop_ne_iff]; norm_num
+
+/-- ... so the model answers `inn = true`, `on = false` there -/
+example : (raycast ⟨0, 0⟩ ⟨2, 4⟩ ⟨0, 1⟩).inn = true ∧ (raycast ⟨0, 0⟩ ⟨2, 4⟩ ⟨0, 1⟩).on = false := by
+  refine ⟨(raycast_in_iff _ _ _ ex_off_cross.1).2 ex_off_cross.2, ?_⟩
+  cases h : (raycast ⟨0, 0⟩ ⟨2, 4⟩ ⟨0, 1⟩).on with
+  | false => rfl
+  | true => exact absurd ((raycast_on_iff _ _ _).1 h) ex_off_cross.1
+
+/-- a point off the segment whose ray misses it (to the right of the segment) -/
+example : ¬ OnSeg ⟨0, 0⟩ ⟨2, 4⟩ ⟨3, 1⟩ ∧ ¬ Cross ⟨0, 0⟩ ⟨2, 4⟩ ⟨3, 1⟩ := by
+  unfold OnSeg Cross Spec.cross
+  constructor <;> norm_num
+
+/-- a vertex level with the point counts as below it: the upper endpoint's level is not crossed,
+    the lower endpoint's level is -/
+example : ¬ Cross ⟨0, 0⟩ ⟨2, 4⟩ ⟨-1, 4⟩ ∧ Cross ⟨0, 0⟩ ⟨2, 4⟩ ⟨-1, 0⟩ := by
+  unfold Cross Spec.cross
+  constructor
+  · norm_num
+  · refine ⟨?_, by norm_num⟩
+    rw [K.prop_ne_iff]; norm_num
+
+/-- an interior point of a sloped segment -/
+example : OnSeg ⟨0, 0⟩ ⟨2, 4⟩ ⟨1, 2⟩ := by
+  unfold OnSeg Spec.cross; norm_num
+
+/-- a collinear point beyond the end of the segment is not on it -/
+example : Spec.cross ⟨0, 0⟩ ⟨2, 4⟩ ⟨3, 6⟩ = 0 ∧ ¬ OnSeg ⟨0, 0⟩ ⟨2, 4⟩ ⟨3, 6⟩ := by
+  unfold OnSeg Spec.cross; norm_num
+
+/-- a proper crossing -/
+example : SegsMeet ⟨0, 0⟩ ⟨2, 2⟩ ⟨0, 2⟩ ⟨2, 0⟩ :=
+  ⟨⟨1, 1⟩, by unfold OnSeg Spec.cross; norm_num, by unfold OnSeg Spec.cross; norm_num⟩
+
+example : Seg.intersects ⟨⟨0, 0⟩, ⟨2, 2⟩⟩ ⟨⟨0, 2⟩, ⟨2, 0⟩⟩ = true :=
+  (segIntersects_iff _ _).2 ⟨⟨1, 1⟩, by unfold OnSeg Spec.cross; norm_num, by unfold OnSeg Spec.cross; norm_num⟩
+
+/-- parallel disjoint segments do not meet -/
+example : ¬ SegsMeet ⟨0, 0⟩ ⟨2, 2⟩ ⟨1, 0⟩ ⟨3, 2⟩ := by
+  rintro ⟨p, ⟨h1, -⟩, ⟨h2, -⟩⟩
+  unfold Spec.cross at h1 h2
+  norm_num at h1 h2
+  linarith
+
+/-- nested collinear segments: the hypothesis of `segContainsSeg_iff` is satisfiable non-trivially -/
+example : Seg.containsSeg ⟨⟨0, 0⟩, ⟨4, 8⟩⟩ ⟨⟨1, 2⟩, ⟨3, 6⟩⟩ = true :=
+  (segContainsSeg_iff _ _).2 ⟨by unfold OnSeg Spec.cross; norm_num, by unfold OnSeg Spec.cross; norm_num⟩
+
+#print axioms onSeg_iff_param
+#print axioms raycast_on_iff
+#print axioms raycast_in_iff
+#print axioms raycast_on_not_in
+#print axioms raycast_symm
+#print axioms segIntersects_iff
+#print axioms segIntersects_symm
+#print axioms segContainsSeg_iff
+#print axioms segContainsSeg_iff_subset
+#print axioms collinearPt_iff
+#print axioms segBox_tight
+#print axioms spec_onSeg_iff
+#print axioms spec_crosses_iff
+#print axioms spec_segsMeet_iff
+
+end Geo
